@@ -23,9 +23,25 @@ class HeapEnv(ME.Env):
             t = F.src(e).replace(' ', '')
             if t in env:
                 return env[t]
+            b = F.strip(e['c'][0])
+            if b['k'] == 'ArraySubscriptExpr':
+                i = self.eval(b['c'][1], env, universe)
+                if isinstance(i, int):
+                    t2 = '%s[%d]%s' % (F.src(F.strip(b['c'][0])).replace(' ', ''), i, t[len(F.src(b).replace(' ', '')):])
+                    if t2 in env:
+                        return env[t2]
             m = ROOT.match(t)
             if m and isinstance(env.get(m.group(1)), int) and env[m.group(1)] in self.heap:
                 return self.heap[env[m.group(1)]].get(m.group(2))
+        if e['k'] == 'ArraySubscriptExpr':
+            i = self.eval(e['c'][1], env, universe)
+            if isinstance(i, int):
+                t = '%s[%d]' % (F.src(F.strip(e['c'][0])).replace(' ', ''), i)
+                if t in env:
+                    return env[t]
+                m = ROOT.match(t)
+                if m and isinstance(env.get(m.group(1)), int) and env[m.group(1)] in self.heap and m.group(2) in self.heap[env[m.group(1)]]:
+                    return self.heap[env[m.group(1)]][m.group(2)]
         return super().eval(e, env, universe)
 
 
@@ -90,6 +106,11 @@ class PrintExec(ME.MiniExec):
         if k == 'UnaryOperator' and e['op'] == '!':
             v = self.val(e['c'][0], env)
             return None if v is None else int(not v)
+        if k == 'MemberExpr':
+            b = self.val(e['c'][0], env)
+            if isinstance(b, dict):
+                return b.get(e['n'])
+            raise F.AnalysisBroken('member of `%s` not modelled' % F.src(e['c'][0])[:60])
         if k == 'CallExpr':
             c = e.get('callee')
             if c in self.accessors:
